@@ -3,8 +3,8 @@
    of NaNs (Props/C07text.v tv_equiv).  toml::Value's visitor sorts tables, so the order is gone after `to_toml_value`;
    what remains is the payload of NaNs (`feq`), which `tv_de` does not see (`sval_eq`). *)
 From TV Require Import Base.Prelude Model.Datetime Model.DatetimeStd Model.SerNum Spec.SerdeData Model.Ser Model.De Model.SerdeRoutes.
-From TV Require Import Proofs.SerdeRTBase Proofs.SerdeRTBTree Proofs.RoutesConv Proofs.RoutesTwins Proofs.RoutesTop Proofs.RoutesDecode Proofs.SerDocDe.
-From Coq Require Import Permutation.
+From TV Require Import Proofs.SerdeRTFmt Proofs.SerdeRTBase Proofs.SerdeRTBTree Proofs.RoutesConv Proofs.RoutesTwins Proofs.RoutesTop Proofs.RoutesDecode Proofs.SerDocDe.
+From Coq Require Import Permutation Sorted.
 Require Import Lia.
 
 (* ---- sval_eq is transitive ------------------------------------------------------------------------------------ *)
@@ -36,4 +36,390 @@ Proof.
   - constructor. eapply (Forall2_trans_l sval_eq vs); eassumption.
   - constructor. eapply IHa; eassumption.
   - constructor. eapply IHa; eassumption.
+Qed.
+
+(* ---- the same tree up to the payload of NaNs ------------------------------------------------------------------- *)
+Inductive feq : tomlval -> tomlval -> Prop :=
+| fq_str s : feq (VStr s) (VStr s)
+| fq_int z : feq (VInt z) (VInt z)
+| fq_float a b : f64_eq a b -> feq (VFloat a) (VFloat b)
+| fq_bool b : feq (VBool b) (VBool b)
+| fq_dt d : feq (VDatetime d) (VDatetime d)
+| fq_arr xs ys : Forall2 feq xs ys -> feq (VArr xs) (VArr ys)
+| fq_tab es fs : Forall2 (fun p q => fst p = fst q /\ feq (snd p) (snd q)) es fs -> feq (VTab es) (VTab fs).
+Definition efeq (p q : bytes * tomlval) : Prop := fst p = fst q /\ feq (snd p) (snd q).
+
+Lemma efeq_keys es fs : Forall2 efeq es fs -> map fst es = map fst fs.
+Proof. induction 1 as [|p q l l' [H _] _ IH]; [reflexivity|]. cbn [map]. rewrite H, IH. reflexivity. Qed.
+
+Lemma tab_get_feq k es fs : Forall2 efeq es fs ->
+  match tab_get k es with
+  | Some x => exists x', tab_get k fs = Some x' /\ feq x x'
+  | None => tab_get k fs = None
+  end.
+Proof.
+  induction 1 as [|[k1 x1] [k2 x2] l l' [Hk Hx] _ IH]; [reflexivity|]. cbn [fst snd] in *. subst k2. cbn [tab_get].
+  destruct (bytes_eqb k1 k); [eauto|exact IH].
+Qed.
+
+Section Congruence.
+  Variable de : ty -> tomlval -> result sval.
+  Definition Pde (t : ty) : Prop := forall y y' v, feq y y' -> de t y = Ok v -> exists v', de t y' = Ok v' /\ sval_eq v v'.
+
+  Lemma mapM_feq t : Pde t -> forall xs ys vs, Forall2 feq xs ys -> mapM (de t) xs = Ok vs ->
+    exists vs', mapM (de t) ys = Ok vs' /\ Forall2 sval_eq vs vs'.
+  Proof.
+    intros HP xs ys vs F. revert vs. induction F as [|x y l l' Hxy _ IH]; intros vs H; cbn [mapM] in *.
+    - injection H as <-. exists []. split; [reflexivity|constructor].
+    - apply rbind_ok in H as (c & Hc & H). apply rbind_ok in H as (cs & Hcs & H). injection H as <-.
+      destruct (HP _ _ _ Hxy Hc) as (c' & -> & Ec). destruct (IH _ Hcs) as (cs' & -> & Ecs). cbn [rbind]. eexists. split; [reflexivity|constructor; assumption].
+  Qed.
+
+  Lemma pos_feq {A} (proj : A -> ty) l : Forall (fun a => Pde (proj a)) l -> forall xs ys r, Forall2 feq xs ys ->
+    de_pos de proj l xs = Ok r ->
+    exists r', de_pos de proj l ys = Ok r' /\ Forall2 sval_eq (fst r) (fst r') /\ Forall2 feq (snd r) (snd r').
+  Proof.
+    induction 1 as [|a l Ha _ IH]; intros xs ys r F H; cbn [de_pos] in *.
+    - injection H as <-. exists ([], ys). split; [reflexivity|]. split; [constructor|exact F].
+    - destruct F as [|x y xs' ys' Hxy F]; [discriminate|]. apply rbind_ok in H as (v & Hv & H). apply rbind_ok in H as (r0 & Hr0 & H). injection H as <-.
+      destruct (Ha _ _ _ Hxy Hv) as (v' & -> & Ev). destruct (IH _ _ _ F Hr0) as (r0' & -> & E1 & E2). cbn [rbind fst snd].
+      eexists. split; [reflexivity|]. cbn [fst snd]. split; [constructor; assumption|exact E2].
+  Qed.
+
+  Lemma all_read_feq (r r' : list sval * list tomlval) vs : Forall2 sval_eq (fst r) (fst r') -> Forall2 feq (snd r) (snd r') ->
+    all_read (Ok r) = Ok vs -> exists vs', all_read (Ok r') = Ok vs' /\ Forall2 sval_eq vs vs'.
+  Proof.
+    unfold all_read. cbn [rbind]. intros E1 E2 H. destruct (snd r); [|discriminate]. injection H as <-. inversion E2; subst.
+    eexists. split; [reflexivity|exact E1].
+  Qed.
+
+  Lemma fields_feq fs0 : Forall (fun ft : bytes * ty => Pde (snd ft)) fs0 -> forall seen es es' vs, Forall2 efeq es es' ->
+    de_fields_map de es seen fs0 = Ok vs -> exists vs', de_fields_map de es' seen fs0 = Ok vs' /\ Forall2 sval_eq vs vs'.
+  Proof.
+    induction 1 as [|[f t] l Hf _ IH]; intros seen es es' vs F H; cbn [de_fields_map] in *.
+    - injection H as <-. exists []. split; [reflexivity|constructor].
+    - apply rbind_ok in H as (v & Hv & H). apply rbind_ok in H as (vs0 & Hvs0 & H). injection H as <-.
+      destruct (IH _ _ _ _ F Hvs0) as (vs0' & E0 & E1). rewrite E0.
+      assert (G : exists v', (if mem_bytes f seen then missing_field t else match tab_get f es' with Some x => de t x | None => missing_field t end) = Ok v' /\ sval_eq v v').
+      { destruct (mem_bytes f seen); [exists v; split; [exact Hv|apply sval_eq_refl]|].
+        pose proof (tab_get_feq f es es' F) as G. destruct (tab_get f es) as [x|].
+        - destruct G as (x' & -> & Hx). apply (Hf _ _ _ Hx Hv).
+        - rewrite G. exists v. split; [exact Hv|apply sval_eq_refl]. }
+      destruct G as (v' & -> & Ev). cbn [rbind]. eexists. split; [reflexivity|constructor; assumption].
+  Qed.
+
+  Lemma struct_map_feq fs0 es es' vs : Forall (fun ft : bytes * ty => Pde (snd ft)) fs0 -> Forall2 efeq es es' ->
+    de_struct_map de fs0 es = Ok vs -> exists vs', de_struct_map de fs0 es' = Ok vs' /\ Forall2 sval_eq vs vs'.
+  Proof.
+    intros HP F H. unfold de_struct_map, dup_field_hit in *. rewrite <- (efeq_keys es es' F).
+    destruct (negb _); [discriminate|]. apply (fields_feq fs0 HP [] es es' vs F H).
+  Qed.
+End Congruence.
+
+Lemma index_keys_feq : forall es fs i, Forall2 efeq es fs ->
+  match index_keys i es with
+  | Some xs => exists xs', index_keys i fs = Some xs' /\ Forall2 feq xs xs'
+  | None => index_keys i fs = None
+  end.
+Proof.
+  intros es fs i F. revert i. induction F as [|[k1 x1] [k2 x2] l l' [Hk Hx] _ IH]; intro i; [exists []; split; [reflexivity|constructor]|].
+  cbn [fst snd] in *. subst k2. cbn [index_keys]. destruct (parse_usize k1) as [j|]; [|reflexivity]. destruct (j =? i)%N; [|reflexivity].
+  specialize (IH (i + 1)%N). destruct (index_keys (i + 1) l) as [xs|].
+  - destruct IH as (xs' & -> & E). cbn [optmap]. eexists. split; [reflexivity|constructor; assumption].
+  - rewrite IH. reflexivity.
+Qed.
+
+(* maps: equal keys, equal values up to sval_eq *)
+Definition keq (p q : sval * sval) : Prop := fst p = fst q /\ sval_eq (snd p) (snd q).
+
+Lemma smap_insert_keq k v v' : sval_eq v v' -> forall es es', Forall2 keq es es' -> Forall2 keq (smap_insert k v es) (smap_insert k v' es').
+Proof.
+  intros Hv es es' F. induction F as [|[k1 v1] [k2 v2] l l' [Hk Hx] Fl IH]; cbn [smap_insert].
+  - constructor; [split; [reflexivity|exact Hv]|constructor].
+  - cbn [fst snd] in *. subst k2. destruct (sval_beq k1 k).
+    + constructor; [split; [reflexivity|exact Hv]|exact Fl].
+    + constructor; [split; [reflexivity|exact Hx]|exact IH].
+Qed.
+
+Lemma smap_of_pairs_keq ps ps' : Forall2 keq ps ps' -> Forall2 keq (smap_of_pairs ps) (smap_of_pairs ps').
+Proof.
+  unfold smap_of_pairs. intro F. assert (G : Forall2 keq (@nil (sval * sval)) []) by constructor. revert G. generalize (@nil (sval * sval)) at 1 3. generalize (@nil (sval * sval)).
+  induction F as [|[k1 v1] [k2 v2] l l' [Hk Hx] _ IH]; intros acc' acc G; cbn [fold_left]; [exact G|].
+  cbn [fst snd] in *. subst k2. apply IH. apply smap_insert_keq; assumption.
+Qed.
+
+Lemma keq_map_eq es es' : Forall2 keq es es' -> sval_eq (SMap es) (SMap es').
+Proof.
+  intro F. apply (eq_map es es' es'); [apply Permutation_refl|]. eapply Forall2_impl; [|exact F].
+  intros [k v] [k' v'] [Hk Hv]. cbn [fst snd] in *. subst k'. split; [apply sval_eq_refl|exact Hv].
+Qed.
+
+(* ---- tv_de does not see the payload of a NaN ------------------------------------------------------------------- *)
+Lemma dt_feq y y' : feq y y' -> tv_de_datetime y' = tv_de_datetime y.
+Proof.
+  intro F. inversion F as [s|z|a b Hab|b|d|xs ys Fx|es fs Fe]; subst; try reflexivity.
+  destruct Fe as [|[k x] [k' x'] l l' [Hk Hx] Fl]; [reflexivity|]. cbn [fst snd] in *. subst k'.
+  destruct Fl; [|reflexivity]. cbn [tv_de_datetime]. destruct (bytes_eqb k DT_FIELD); [|reflexivity]. inversion Hx; subst; reflexivity.
+Qed.
+
+Lemma empty_feq y y' : feq y y' -> empty_container y' = empty_container y.
+Proof. intro F. inversion F as [s|z|a b Hab|b|d|xs ys Fx|es fs Fe]; subst; try reflexivity; [destruct Fx; reflexivity|destruct Fe; reflexivity]. Qed.
+
+Lemma F2_length {A B} (R : A -> B -> Prop) l l' : Forall2 R l l' -> length l' = length l.
+Proof. induction 1; cbn [length]; congruence. Qed.
+
+Definition Pt (t : ty) : Prop := Pde tv_de t.
+Definition Qv (var : variant) : Prop :=
+  forall y y' v, feq y y' -> tv_de_payload var y = Ok v -> exists v', tv_de_payload var y' = Ok v' /\ sval_eq v v'.
+
+Lemma seq_result (P : list sval -> sval) (HP : forall a b, Forall2 sval_eq a b -> sval_eq (P a) (P b)) r r' vs :
+  (exists vs', r' = Ok vs' /\ Forall2 sval_eq vs vs') -> r = Ok vs -> forall v, rmap P r = Ok v -> exists v', rmap P r' = Ok v' /\ sval_eq v v'.
+Proof. intros (vs' & -> & E) -> v H. cbn [rmap] in *. injection H as <-. eexists. split; [reflexivity|apply HP, E]. Qed.
+
+Lemma tuple_feq ts xs ys v (C : list sval -> sval) : (forall a b, Forall2 sval_eq a b -> sval_eq (C a) (C b)) ->
+  Forall Pt ts -> Forall2 feq xs ys -> rmap C (all_read (de_pos tv_de (fun t' => t') ts xs)) = Ok v ->
+  exists v', rmap C (all_read (de_pos tv_de (fun t' => t') ts ys)) = Ok v' /\ sval_eq v v'.
+Proof.
+  intros HC HP F H. apply rmap_ok in H as (vs & Hvs & ->). destruct (de_pos tv_de (fun t' => t') ts xs) as [r|] eqn:E; [|discriminate].
+  destruct (pos_feq tv_de (fun t' => t') ts HP xs ys r F E) as (r' & -> & E1 & E2).
+  destruct (all_read_feq r r' vs E1 E2 Hvs) as (vs' & -> & E3). cbn [rmap]. eexists. split; [reflexivity|apply HC, E3].
+Qed.
+
+Lemma fields_pos_feq (fs0 : list (bytes * ty)) xs ys v (C : list sval -> sval) : (forall a b, Forall2 sval_eq a b -> sval_eq (C a) (C b)) ->
+  Forall (fun ft => Pt (snd ft)) fs0 -> Forall2 feq xs ys -> rmap C (all_read (de_pos tv_de (fun ft : bytes * ty => snd ft) fs0 xs)) = Ok v ->
+  exists v', rmap C (all_read (de_pos tv_de (fun ft : bytes * ty => snd ft) fs0 ys)) = Ok v' /\ sval_eq v v'.
+Proof.
+  intros HC HP F H. apply rmap_ok in H as (vs & Hvs & ->). destruct (de_pos tv_de (fun ft : bytes * ty => snd ft) fs0 xs) as [r|] eqn:E; [|discriminate].
+  destruct (pos_feq tv_de (fun ft : bytes * ty => snd ft) fs0 HP xs ys r F E) as (r' & -> & E1 & E2).
+  destruct (all_read_feq r r' vs E1 E2 Hvs) as (vs' & -> & E3). cbn [rmap]. eexists. split; [reflexivity|apply HC, E3].
+Qed.
+
+Lemma struct_feq fs0 es es' v : Forall (fun ft => Pt (snd ft)) fs0 -> Forall2 efeq es es' ->
+  rmap SRec (de_struct_map tv_de fs0 es) = Ok v -> exists v', rmap SRec (de_struct_map tv_de fs0 es') = Ok v' /\ sval_eq v v'.
+Proof.
+  intros HP F H. apply rmap_ok in H as (vs & Hvs & ->). destruct (struct_map_feq tv_de fs0 es es' vs HP F Hvs) as (vs' & -> & E).
+  cbn [rmap]. eexists. split; [reflexivity|constructor; exact E].
+Qed.
+
+Lemma find_name_feq (vs : list (bytes * variant)) k y y' : Forall (fun nv => Qv (snd nv)) vs -> feq y y' -> forall i v,
+  find_name (fun i var => rmap (SVariant i) (tv_de_payload var y)) (Err EDe) k vs i = Ok v ->
+  exists v', find_name (fun i var => rmap (SVariant i) (tv_de_payload var y')) (Err EDe) k vs i = Ok v' /\ sval_eq v v'.
+Proof.
+  intros HQ F. induction HQ as [|[n var] l Hv _ IH]; intros i v H; cbn [find_name] in *; [discriminate|].
+  destruct (bytes_eqb n k); [|apply IH, H]. apply rmap_ok in H as (p & Hp & ->). cbn [snd] in Hv. destruct (Hv _ _ _ F Hp) as (p' & -> & E).
+  cbn [rmap]. eexists. split; [reflexivity|constructor; exact E].
+Qed.
+
+Lemma map_entries_feq kt vt es fs ps : Pt vt -> Forall2 efeq es fs ->
+  mapM (fun kx : bytes * tomlval => rbind (tv_de kt (VStr (fst kx))) (fun k => rmap (fun v => (k, v)) (tv_de vt (snd kx)))) es = Ok ps ->
+  exists ps', mapM (fun kx : bytes * tomlval => rbind (tv_de kt (VStr (fst kx))) (fun k => rmap (fun v => (k, v)) (tv_de vt (snd kx)))) fs = Ok ps'
+              /\ Forall2 keq ps ps'.
+Proof.
+  intros HP F. revert ps. induction F as [|[k x] [k' x'] l l' [Hk Hx] _ IH]; intros ps H; cbn [mapM] in *.
+  - injection H as <-. exists []. split; [reflexivity|constructor].
+  - cbn [fst snd] in *. subst k'. apply rbind_ok in H as (c & Hc & H). apply rbind_ok in H as (cs & Hcs & H). injection H as <-.
+    apply rbind_ok in Hc as (kv & Hkv & Hc). apply rmap_ok in Hc as (v & Hv & ->). rewrite Hkv. cbn [rbind].
+    destruct (HP _ _ _ Hx Hv) as (v' & -> & Ev). cbn [rmap rbind]. destruct (IH _ Hcs) as (cs' & -> & Ecs). cbn [rbind].
+    eexists. split; [reflexivity|]. constructor; [split; [reflexivity|exact Ev]|exact Ecs].
+Qed.
+
+Lemma seq_cong a b : Forall2 sval_eq a b -> sval_eq (SSeq a) (SSeq b). Proof. intro H. constructor. exact H. Qed.
+Lemma rec_cong a b : Forall2 sval_eq a b -> sval_eq (SRec a) (SRec b). Proof. intro H. constructor. exact H. Qed.
+
+Theorem tv_de_feq : forall t, Pt t.
+Proof.
+  induction t using ty_ind2 with (Q := Qv); unfold Pt, Pde, Qv in *.
+  - (* TBool *) intros y y' v F H. inversion F; subst; cbn [tv_de] in *; try discriminate. eexists. split; [exact H|apply sval_eq_refl].
+  - (* TInt *) intros y y' v F H. inversion F; subst; cbn [tv_de] in *; try discriminate. eexists. split; [exact H|apply sval_eq_refl].
+  - (* TFloat *) intros y y' v F H. inversion F; subst; destruct w; cbn [tv_de] in *; try discriminate; injection H as <-; eexists; (split; [reflexivity|]).
+    + constructor. match goal with Hab : f64_eq _ _ |- _ => destruct Hab as [-> | [N1 N2]]; [left; reflexivity|right; split; apply narrow32_nan; assumption] end.
+    + constructor. assumption.
+  - (* TChar *) intros y y' v F H. inversion F; subst; cbn [tv_de] in *; try discriminate. eexists. split; [exact H|apply sval_eq_refl].
+  - (* TStr *) intros y y' v F H. inversion F; subst; cbn [tv_de] in *; try discriminate. eexists. split; [exact H|apply sval_eq_refl].
+  - (* TDatetime *) intros y y' v F H. cbn [tv_de] in *. rewrite (dt_feq y y' F). eexists. split; [exact H|apply sval_eq_refl].
+  - (* TUnit *) intros y y' v F H. discriminate.
+  - (* TUnitStruct *) intros y y' v F H. discriminate.
+  - (* TOpt *) intros y y' v F H. cbn [tv_de] in *. apply rmap_ok in H as (v0 & Hv0 & ->). destruct (IHt _ _ _ F Hv0) as (v' & -> & E).
+    cbn [rmap]. eexists. split; [reflexivity|constructor; exact E].
+  - (* TSeq *) intros y y' v F H. inversion F; subst; cbn [tv_de] in *; try discriminate. apply rmap_ok in H as (vs & Hvs & ->).
+    match goal with Fx : Forall2 feq _ _ |- _ => destruct (mapM_feq tv_de t IHt _ _ _ Fx Hvs) as (vs' & -> & E) end.
+    cbn [rmap]. eexists. split; [reflexivity|constructor; exact E].
+  - (* TTuple *) intros y y' v F Hv. inversion F; subst; cbn [tv_de] in *; try discriminate. eapply tuple_feq; [apply seq_cong|exact H|eassumption|exact Hv].
+  - (* TMap *) intros y y' v F H. inversion F; subst; cbn [tv_de] in *; try discriminate. apply rmap_ok in H as (ps & Hps & ->).
+    match goal with Fe : Forall2 _ es fs |- _ => destruct (map_entries_feq t1 t2 es fs ps IHt2 Fe Hps) as (ps' & -> & E) end.
+    cbn [rmap]. eexists. split; [reflexivity|apply keq_map_eq, smap_of_pairs_keq, E].
+  - (* TStruct *) intros y y' v F Hv. inversion F; subst; cbn [tv_de] in *; try discriminate.
+    + eapply fields_pos_feq; [apply rec_cong|exact H|eassumption|exact Hv].
+    + eapply struct_feq; [exact H|eassumption|exact Hv].
+  - (* TNewtype *) intros y y' v F H. cbn [tv_de] in *. apply rmap_ok in H as (v0 & Hv0 & ->). destruct (IHt _ _ _ F Hv0) as (v' & -> & E).
+    cbn [rmap]. eexists. split; [reflexivity|constructor; exact E].
+  - (* TTupleStruct *) intros y y' v F Hv. inversion F; subst; cbn [tv_de] in *; try discriminate. eapply tuple_feq; [apply seq_cong|exact H|eassumption|exact Hv].
+  - (* TEnum *) intros y y' v F Hv. inversion F as [s|z|a b Hab|b|d|xs ys Fx|es fs Fe]; subst; cbn [tv_de] in *; try discriminate.
+    + eexists. split; [exact Hv|apply sval_eq_refl].
+    + destruct Fe as [|[k x] [k' x'] l l' [Hk Hx] Fl]; [discriminate|]. cbn [fst snd] in *. subst k'. destruct Fl; [|destruct l; discriminate].
+      apply (find_name_feq vs k x x' H Hx 0 v Hv).
+  - (* VUnit *) intros y y' v F H. cbn [tv_de_payload] in *. rewrite (empty_feq y y' F). eexists. split; [exact H|apply sval_eq_refl].
+  - (* VNewtype *) intros y y' v F H. cbn [tv_de_payload] in *. apply (IHt _ _ _ F H).
+  - (* VTuple *) intros y y' v F Hv. inversion F as [s|z|a b Hab|b|d|xs ys Fx|es fs Fe]; subst; cbn [tv_de_payload] in *; try discriminate.
+    + rewrite (F2_length _ _ _ Fx). destruct (Nat.eqb (length xs) (length ts)); [|discriminate]. eapply tuple_feq; [apply seq_cong|exact H|exact Fx|exact Hv].
+    + pose proof (index_keys_feq es fs 0 Fe) as G. destruct (index_keys 0 es) as [xs|]; [|discriminate]. destruct G as (xs' & -> & Fx).
+      rewrite (F2_length _ _ _ Fx). destruct (Nat.eqb (length xs) (length ts)); [|discriminate]. eapply tuple_feq; [apply seq_cong|exact H|exact Fx|exact Hv].
+  - (* VStruct *) intros y y' v F Hv. inversion F; subst; cbn [tv_de_payload] in *; try discriminate.
+    + eapply fields_pos_feq; [apply rec_cong|exact H|eassumption|exact Hv].
+    + eapply struct_feq; [exact H|eassumption|exact Hv].
+Qed.
+
+
+(* ================================================================================================================== *)
+(* to_toml_value forgets the order of table entries                                                                   *)
+(* ================================================================================================================== *)
+(* sorted tables with the same entries are equal *)
+Lemma bsorted_ext : forall l l', bsorted l -> bsorted l' -> (forall kx, In kx l <-> In kx l') -> l = l'.
+Proof.
+  induction l as [|p l IH]; intros l' Hs Hs' Hm.
+  - destruct l' as [|q l']; [reflexivity|]. exfalso. apply (proj2 (Hm q)). left. reflexivity.
+  - destruct l' as [|q l']; [exfalso; apply (proj1 (Hm p)); left; reflexivity|].
+    apply StronglySorted_inv in Hs as [Hs Hp]. apply StronglySorted_inv in Hs' as [Hs' Hq]. rewrite Forall_forall in Hp, Hq.
+    assert (Epq : p = q).
+    { destruct (proj1 (Hm p) (or_introl eq_refl)) as [E | Hin]; [symmetry; exact E|].
+      destruct (proj2 (Hm q) (or_introl eq_refl)) as [E | Hin']; [exact E|].
+      exfalso. pose proof (Hq _ Hin) as L1. pose proof (Hp _ Hin') as L2. unfold key_lt in *.
+      pose proof (bytes_ltb_trans _ _ _ L1 L2) as L3. rewrite bytes_ltb_irrefl in L3. discriminate. }
+    subst q. f_equal. apply IH; [exact Hs|exact Hs'|]. intro kx. split; intro Hin.
+    + destruct (proj1 (Hm kx) (or_intror Hin)) as [E | H']; [|exact H']. subst kx. exfalso. pose proof (Hp _ Hin) as L. unfold key_lt in L.
+      rewrite bytes_ltb_irrefl in L. discriminate.
+    + destruct (proj2 (Hm kx) (or_intror Hin)) as [E | H']; [|exact H']. subst kx. exfalso. pose proof (Hq _ Hin) as L. unfold key_lt in L.
+      rewrite bytes_ltb_irrefl in L. discriminate.
+Qed.
+
+Lemma btree_perm ps ps' : Permutation ps ps' -> NoDup (map fst ps) -> btree_of_pairs ps = btree_of_pairs ps'.
+Proof.
+  intros P Hnd. assert (Hnd' : NoDup (map fst ps')) by (eapply Permutation_NoDup; [apply Permutation_map, P|exact Hnd]).
+  destruct (btree_of_pairs_spec ps Hnd) as [S1 M1]. destruct (btree_of_pairs_spec ps' Hnd') as [S2 M2].
+  apply bsorted_ext; [exact S1|exact S2|]. intro kx. rewrite M1, M2. split; intro H; [apply (Permutation_in _ P), H|apply (Permutation_in _ (Permutation_sym P)), H].
+Qed.
+
+Lemma btree_insert_efeq k x x' : feq x x' -> forall acc acc', Forall2 efeq acc acc' -> Forall2 efeq (btree_insert k x acc) (btree_insert k x' acc').
+Proof.
+  intros Hx acc acc' F. induction F as [|[k1 y1] [k2 y2] l l' [Hk Hy] Fl IH]; cbn [btree_insert].
+  - constructor; [split; [reflexivity|exact Hx]|constructor].
+  - cbn [fst snd] in *. subst k2. destruct (bytes_eqb k1 k).
+    + constructor; [split; [reflexivity|exact Hx]|exact Fl].
+    + destruct (bytes_ltb k k1).
+      * constructor; [split; [reflexivity|exact Hx]|]. constructor; [split; [reflexivity|exact Hy]|exact Fl].
+      * constructor; [split; [reflexivity|exact Hy]|exact IH].
+Qed.
+
+Lemma btree_efeq ps ps' : Forall2 efeq ps ps' -> Forall2 efeq (btree_of_pairs ps) (btree_of_pairs ps').
+Proof.
+  unfold btree_of_pairs. intro F. assert (G : Forall2 efeq (@nil (bytes * tomlval)) []) by constructor. revert G.
+  generalize (@nil (bytes * tomlval)) at 1 3. generalize (@nil (bytes * tomlval)).
+  induction F as [|[k1 v1] [k2 v2] l l' [Hk Hx] _ IH]; intros acc' acc G; cbn [fold_left]; [exact G|].
+  cbn [fst snd] in *. subst k2. apply IH. apply btree_insert_efeq; assumption.
+Qed.
+
+Definition conv1 (kx : bytes * tomlval) : result (bytes * tomlval) := rmap (fun y' => (fst kx, y')) (to_toml_value (snd kx)).
+
+Lemma feq_refl : forall y, feq y y.
+Proof.
+  induction y using tomlval_ind2; try (constructor; fail).
+  - constructor. left. reflexivity.
+  - constructor. induction H; constructor; assumption.
+  - constructor. induction H as [|[k x] l Hx _ IH]; constructor; [split; [reflexivity|exact Hx]|exact IH].
+Qed.
+
+Definition Cv (x : tomlval) : Prop :=
+  forall x' y, tv_equiv x x' -> tunnel_free x = true -> to_toml_value x = Ok y -> exists y', to_toml_value x' = Ok y' /\ feq y y'.
+
+Theorem conv_equiv : forall x, Cv x.
+Proof.
+  induction x using tomlval_ind2; unfold Cv in *; intros x' y E Ht Hy.
+  - apply equiv_str in E. subst x'. exists y. split; [exact Hy|apply feq_refl].
+  - apply equiv_int in E. subst x'. exists y. split; [exact Hy|apply feq_refl].
+  - inversion E; subst. cbn [to_toml_value] in *. injection Hy as <-. eexists. split; [reflexivity|constructor; assumption].
+  - apply equiv_bool in E. subst x'. exists y. split; [exact Hy|apply feq_refl].
+  - apply equiv_dt in E. subst x'. exists y. split; [exact Hy|apply feq_refl].
+  - (* arrays *) apply equiv_arr in E as (ys & -> & F). rewrite ttv_arr in *. apply rmap_ok in Hy as (rs & Hrs & ->). cbn [tunnel_free] in Ht.
+    assert (G : exists rs', mapM to_toml_value ys = Ok rs' /\ Forall2 feq rs rs').
+    { revert rs Hrs. induction F as [|a b l l' Hab _ IH]; intros rs Hrs; cbn [mapM] in *.
+      - injection Hrs as <-. exists []. split; [reflexivity|constructor].
+      - inversion H as [|? ? Ha Hl]; subst. cbn [forallb] in Ht. apply andb_true_iff in Ht as [Ht1 Ht2].
+        apply rbind_ok in Hrs as (c & Hc & Hrs). apply rbind_ok in Hrs as (cs & Hcs & Hrs). injection Hrs as <-.
+        destruct (Ha _ _ Hab Ht1 Hc) as (c' & -> & Ec). destruct (IH Hl Ht2 _ Hcs) as (cs' & -> & Ecs). cbn [rbind].
+        eexists. split; [reflexivity|constructor; assumption]. }
+    destruct G as (rs' & -> & Ers). cbn [rmap]. eexists. split; [reflexivity|constructor; exact Ers].
+  - (* tables *) apply tab_equiv_inv in E as (es' & fs & -> & P & F). cbn [tunnel_free] in Ht.
+    assert (Hkeys : forall k, In k (map fst es) -> bytes_eqb k DT_FIELD = false).
+    { intros k Hin. apply in_map_iff in Hin as ([k0 x0] & <- & Hin). rewrite forallb_forall in Ht. specialize (Ht _ Hin). cbn [fst snd] in *.
+      apply andb_true_iff in Ht as [Hk _]. apply negb_true_iff in Hk. exact Hk. }
+    assert (Hfp : first_key_plain es = true).
+    { destruct es as [|[k x] es0]; [reflexivity|]. cbn [first_key_plain]. rewrite (Hkeys k (or_introl eq_refl)). reflexivity. }
+    assert (Pk : Permutation (map fst es) (map fst fs)) by (rewrite <- (equiv_keys _ _ F); apply Permutation_map, P).
+    assert (Hfp' : first_key_plain fs = true).
+    { destruct fs as [|[k x] fs0]; [reflexivity|]. cbn [first_key_plain]. rewrite (Hkeys k); [reflexivity|].
+      apply (Permutation_in _ (Permutation_sym Pk)). left. reflexivity. }
+    rewrite (ttv_tab_plain es Hfp) in Hy. rewrite (ttv_tab_plain fs Hfp'). apply rbind_ok in Hy as (es1 & Hes1 & Hy).
+    destruct (nodup_bytes (map fst es1)) eqn:Hnd; [|discriminate]. injection Hy as <-.
+    unfold conv_entries in *. fold conv1 in *. apply mapM_ok in Hes1.
+    (* the results along the permutation *)
+    destruct (Forall2_perm_l _ _ _ P _ Hes1) as (es1' & P1 & F1).
+    assert (G : exists fs1, mapM conv1 fs = Ok fs1 /\ Forall2 efeq es1' fs1).
+    { assert (Hin' : forall e, In e es' -> In e es) by (intros e He; apply (Permutation_in _ (Permutation_sym P)), He).
+      clear P P1 Pk Hfp'. revert es1' F1. induction F as [|a b l l' [Hk Hab] _ IH]; intros es1' F1; inversion F1 as [|? r ? rl Hr Frl]; subst; cbn [mapM].
+      - exists []. split; [reflexivity|constructor].
+      - rewrite Forall_forall in H. pose proof (H a (Hin' a (or_introl eq_refl))) as Ha. unfold conv1 in Hr. apply rmap_ok in Hr as (ya & Hya & ->).
+        assert (Hta : tunnel_free (snd a) = true).
+        { rewrite forallb_forall in Ht. specialize (Ht a (Hin' a (or_introl eq_refl))). apply andb_true_iff in Ht as [_ Ht]. exact Ht. }
+        destruct (Ha _ _ Hab Hta Hya) as (yb & Eyb & Eab). unfold conv1 at 1. rewrite Eyb. cbn [rmap rbind].
+        destruct (IH (fun e He => Hin' e (or_intror He)) rl Frl) as (fs1 & -> & Efs). cbn [rbind].
+        eexists. split; [reflexivity|]. constructor; [split; [cbn [fst]; exact Hk|exact Eab]|exact Efs]. }
+    destruct G as (fs1 & -> & Efs). cbn [rbind].
+    assert (Ek1 : map fst es1' = map fst fs1) by (apply efeq_keys, Efs).
+    assert (Hnd1 : NoDup (map fst es1)) by (apply nodup_bytes_NoDup, Hnd).
+    assert (Hnd' : nodup_bytes (map fst fs1) = true).
+    { apply nodup_bytes_NoDup. rewrite <- Ek1. eapply Permutation_NoDup; [apply Permutation_map, P1|exact Hnd1]. }
+    rewrite Hnd'. eexists. split; [reflexivity|]. constructor. rewrite (btree_perm es1 es1' P1 Hnd1). apply btree_efeq, Efs.
+Qed.
+
+(* ================================================================================================================== *)
+(* on the tree a text route serializes, read back up to tv_equiv, the routes through toml::Value return the value     *)
+(* ================================================================================================================== *)
+From TV Require Import Proofs.SerdeRTTv Model.SerDoc.
+
+Lemma first_key_equiv es x' : tv_equiv (VTab es) x' -> tunnel_free (VTab es) = true -> exists fs, x' = VTab fs /\ first_key_plain fs = true.
+Proof.
+  intros E Ht. apply tab_equiv_inv in E as (es' & fs & -> & P & F). exists fs. split; [reflexivity|].
+  destruct fs as [|[k x] fs0]; [reflexivity|]. cbn [first_key_plain]. apply negb_true_iff.
+  assert (Pk : Permutation (map fst es) (map fst ((k, x) :: fs0))) by (rewrite <- (equiv_keys _ _ F); apply Permutation_map, P).
+  assert (Hin : In k (map fst es)) by (apply (Permutation_in _ (Permutation_sym Pk)); left; reflexivity).
+  apply in_map_iff in Hin as ([k0 x0] & <- & Hin). cbn [tunnel_free] in Ht. rewrite forallb_forall in Ht. specialize (Ht _ Hin). cbn [fst snd] in *.
+  apply andb_true_iff in Ht as [Hk _]. apply negb_true_iff in Hk. exact Hk.
+Qed.
+
+(* the tree of a text route, read by toml::Value's visitor, then by try_into *)
+Lemma text_route_value_tree r0 ty v out : has_type v ty -> ser_text r0 ty v = Ok out -> tunnel_free out = true ->
+  exists y v1, to_toml_value out = Ok y /\ tv_de ty y = Ok v1 /\ sval_eq v v1 /\ exists es, out = VTab es.
+Proof.
+  intros Hty Hser Hf.
+  assert (Htoml : ser_toml_root ty v = Ok out -> exists y v1, to_toml_value out = Ok y /\ tv_de ty y = Ok v1 /\ sval_eq v v1 /\ exists es, out = VTab es).
+  { intro H. destruct (try_from_is_parsed_text ty v out Hty H Hf) as (y & C1 & _ & T & _).
+    pose proof (toml_root_is_value ty v out Hty H Hf) as Hv.
+    destruct (tv_roundtrip_supported ty v y Hty (ser_ok_supported ty v out Hty Hv) T) as (v1 & D & E).
+    exists y, v1. split; [exact C1|]. split; [exact D|]. split; [exact E|apply (toml_root_is_table ty v out H)]. }
+  assert (Hedit : ser_edit_root ty v = Ok out -> exists y v1, to_toml_value out = Ok y /\ tv_de ty y = Ok v1 /\ sval_eq v v1 /\ exists es, out = VTab es).
+  { intro H. unfold ser_edit_root in H. apply rbind_ok in H as (x & Hx & Hr). unfold root_table in Hr. destruct x; try discriminate. injection Hr as <-.
+    destruct (try_from_twin ty v (VTab es) Hty Hx Hf) as (y & C1 & T).
+    destruct (tv_roundtrip_supported ty v y Hty (ser_ok_supported ty v _ Hty Hx) T) as (v1 & D & E).
+    exists y, v1. split; [exact C1|]. split; [exact D|]. split; [exact E|eauto]. }
+  destruct r0; cbn [ser_text] in Hser; auto.
+Qed.
+
+Theorem text_route_value_back r0 ty v out x' : has_type v ty -> ser_text r0 ty v = Ok out -> tunnel_free out = true -> tv_equiv out x' ->
+  exists y' v2, to_toml_value x' = Ok y' /\ to_toml_table x' = Ok y' /\ tv_de ty y' = Ok v2 /\ sval_eq v v2.
+Proof.
+  intros Hty Hser Hf E. destruct (text_route_value_tree r0 ty v out Hty Hser Hf) as (y & v1 & C & D & Ev & es & ->).
+  destruct (conv_equiv (VTab es) x' y E Hf C) as (y' & C' & Fy). destruct (tv_de_feq ty y y' v1 Fy D) as (v2 & D' & Ev').
+  exists y', v2. split; [exact C'|]. split; [|split; [exact D'|eapply sval_eq_trans; eassumption]].
+  destruct (first_key_equiv es x' E Hf) as (fs & -> & Hfp). rewrite plain_root_same; [exact C'|].
+  unfold plain_root. rewrite (ttv_nodup fs y' Hfp C'). exact Hfp.
 Qed.
